@@ -193,6 +193,18 @@ def rule_sequence(report, prog):
     # V(R) increment is paired with the hand-over (same guard `name == "I"`)
     report.check(cfg.dominates(inc, enq), 'C05-R3', key(f.qname, 'V(R) incremented exactly when the PDU is handed over'),
                  f.loc(inc.ast), 'V(R) increment and hand-over are no longer paired')
+    # ... and an I PDU that passed both tests is never dropped: from the branch that counts it (V(R) increment) no normal path
+    # leaves the function without the hand-over -- LLCP has no retransmission, a dropped in-sequence PDU is lost for good and the
+    # next one is out of sequence
+    branch = [t for e, t in cfg.test_nodes.items() if isinstance(t.owner, ast.If) and any(x is inc.ast for st_ in t.owner.body for x in ast.walk(st_))]
+    okk = bool(branch)
+    for t in branch:
+        for nxt, lab in t.succ:
+            if lab == 'true' and cfg.exit in cfg.reachable(nxt, avoid_nodes=[enq], labels_excluded=('exc',)) and nxt is not enq:
+                okk = False
+    report.check(okk, 'C05-R3', key(f.qname, 'an in-sequence I PDU is always handed over'), f.loc(inc.ast),
+                 'an I PDU that passed the N(S) and size tests can leave _enqueue_state_established without being queued for recv(): the '
+                 'message is lost (no retransmission in LLCP)')
     # acknowledgement processing: acks = (N(R) - V(SA)) % 16 ; V(SA) := N(R)
     a = find(f.node, 'acks = $E')
     report.check(len(a) == 1 and norm(a[0][1]['E']) == '(rcvd_pdu.nr - self.send_ack) % 16', 'C05-R4',
@@ -310,6 +322,20 @@ def rule_wait(report, prog):
                          'wait() is not inside a loop that re-tests the window predicate (spurious / stolen wake-up)')
 
 
+def rule_sap_order(report, prog, rule='C05-R7'):
+    """A service access point hands a received PDU to the *first* socket whose peer matches or is None.  The listening socket has
+    no peer, so it matches everything: every connection socket has to stand in front of it -- insert_socket() prepends."""
+    f = prog.func('nfc.llcp.llc.ServiceAccessPoint.insert_socket')
+    ins = [c for c in ast.walk(f.node) if isinstance(c, ast.Call) and isinstance(c.func, ast.Attribute) and norm(c.func.value) == 'self.sock_list'
+           and c.func.attr in ('append', 'appendleft', 'insert', 'extend', 'extendleft')]
+    okk = len(ins) == 1 and (ins[0].func.attr == 'appendleft' or (ins[0].func.attr == 'insert' and try_const(ins[0].args[0]) == 0))
+    e = prog.func('nfc.llcp.llc.ServiceAccessPoint.enqueue')
+    first = any(isinstance(l, ast.For) and norm(l.iter) == 'self.sock_list' and any(isinstance(b, ast.Break) for b in ast.walk(l)) for l in ast.walk(e.node))
+    report.check(okk and first, rule, key(f.qname, 'connection sockets are put in front of the listening socket'), f.loc(ins[0]) if ins else f.loc(),
+                 'insert_socket() no longer prepends (`%s`) while enqueue() serves the first matching socket: the listening socket (peer None) '
+                 'swallows the PDUs of every accepted connection' % (norm(ins[0]) if ins else ''))
+
+
 def rule_fifo(report, prog):
     """Queue discipline: append at the tail, popleft at the head; appendleft only to requeue the PDU just popped."""
     n = 0
@@ -384,6 +410,7 @@ def run(report, prog, tier):
     rule_lock(report, prog)
     rule_wait(report, prog)
     rule_fifo(report, prog)
+    rule_sap_order(report, prog)
     report.trusted += ['threading.Condition(self.lock) shares the lock; `with cond:` acquires it',
                        'constructor results (pdu.FrameReject.from_pdu) are truthy (flag-variable refinement)']
     report.assumptions += ['sockets are used through the methods of nfc.llcp.tco only']
@@ -395,6 +422,12 @@ def selftest():
 
 T = 'nfc.llcp.tco'
 MUTANTS = [
+    ('sap-appends-connection-behind-listener', 'nfc.llcp.llc', "                self.sock_list.appendleft(socket)", "                self.sock_list.append(socket)", 'C05-R7'),
+    ('in-sequence-i-pdu-dropped-when-busy', 'nfc.llcp.tco', """            with self.lock:
+                # V(R) := V(R) + 1 mod 16""", """            with self.lock:
+                if self.mode.RECV_BUSY:
+                    return
+                # V(R) := V(R) + 1 mod 16""", 'C05-R3'),
     ('nr-only-with-new-confirmations', 'nfc.llcp.tco', """                        self.recv_confs = 0
                     send_pdu.nr = self.recv_ack
                     self.send_ready.notify()""", """                        self.recv_confs = 0
